@@ -70,6 +70,8 @@ pub fn run(out: &mut Out, rng: &mut Rng, tier: Tier) {
         out.emit("from_idx1g", &args[..2],
             &Page::from_page_table_indices_1gib(ix(0), ix(1)).start_address().as_u64().to_string(), true);
     }
+    // stepping an index (Step for PageTableIndex) never leaves 0..512: same lines as in the C05 stream
+    crate::c05::index_steps(out, tier);
     // constructors: all u16 (exhaustive)
     for i in 0..=u16::MAX {
         out.emit("idx_new", &[i as u64], &fmt_r(guard(|| u(PageTableIndex::new(i)))), true);
